@@ -13,6 +13,8 @@ rc=0
 echo "$out" | grep "post:bad" | grep -v "^FAIL" && { echo "UNSOUND: a false clause was proved"; rc=1; }
 echo "$out" | grep "post:good" | grep -v "^ok" && { echo "INCOMPLETE: a true clause was not proved"; rc=1; }
 echo "$out" | grep "zzS#safe:rangekeys" | grep -v "^FAIL" && { echo "UNSOUND: insertion during a range over the map was not flagged"; rc=1; }
+echo "$out" | grep "zzPH#assert:ph" | grep -q "^FAIL" || { echo "UNSOUND: pigeonhole applied without the key range"; rc=1; }
+echo "$out" | grep "zzPH2#assert:ph" | grep -q "^ok" || { echo "INCOMPLETE: pigeonhole not applied with the key range proved"; rc=1; }
 echo "$out" | grep "zzMP2#safe:panic" | grep -q "^FAIL" || { echo "UNSOUND: maypanic swallowed the panic of a helper executed in place"; rc=1; }
 echo "$out" | grep "zzMP#safe:panic" && { echo "INCOMPLETE: maypanic did not allow the function's own panic"; rc=1; }
 echo "$out" | grep -q "ENGINE-ERROR" && { echo "$out" | grep ENGINE-ERROR; rc=1; }
